@@ -7,3 +7,13 @@ static inline struct BuildValue bv_success(vec_finfo infos) {
   g_makes++; g_made_n = infos.len;
   g_made[0] = infos.buf[0]; g_made[1] = infos.buf[1]; g_made[2] = infos.buf[2]; g_made[3] = infos.buf[3]; g_made[4] = infos.buf[4];
   struct BuildValue v; v.kind = BuildValue_Kind_SuccessfulCommand; v.g_n = (unsigned)infos.len; return v; }
+static inline struct BuildValue bv_make(int kind) { struct BuildValue v; v.kind = kind; v.g_n = 0; return v; }
+struct FileInfo g_existing_info;
+static inline struct BuildValue bv_existing(struct FileInfo info) { g_existing_info = info; struct BuildValue v; v.kind = BuildValue_Kind_ExistingInput; v.g_n = 1; return v; }
+/* std::find over the output list (at most NO nodes, written out) */
+static inline struct BuildNode **verif_find_node(struct BuildNode **b, struct BuildNode **e, struct Node *n) {
+  if (b != e && (struct Node *)b[0] == n) return b;
+  if (b + 1 != e && b != e && (struct Node *)b[1] == n) return b + 1;
+  if (e - b > 2 && (struct Node *)b[2] == n) return b + 2;
+  if (e - b > 3 && (struct Node *)b[3] == n) return b + 3;
+  return e; }
